@@ -47,7 +47,9 @@ CLAIMED = {
          "modelled over exact rationals; for a map written in ANY entry order with pairwise different, strictly increasing entries "
          "map_backward(map_forward v) == v and map_forward(map_backward d) == d for ALL v, d; for strictly decreasing maps both hold inside "
          "the node range and a machine-checked counterexample shows the range cannot be dropped (slope +1 extrapolation); conflicting inputs "
-         "are refused. Correspondence on adversarial name sequences and on random maps (unsorted, flat, non-monotone, duplicate, "
+         "are refused. UFO 1/2 -> 3 kerning conversion (as repaired by the fix: commit for F21): the whole function is modelled; every renamed "
+         "group gets its own new name, none an existing group name, on both sides together. Correspondence on adversarial name sequences, on "
+         "generated kerning/groups dictionaries and on random maps (unsorted, flat, non-monotone, duplicate, "
          "conflicting); designspace/plist/GLIF/UFO write-read equality are implementation sweeps (testing). "
          "F2 (misc/filenames raw-string table) repaired by a fix: commit.",
          "Rocq proof over a model with source-regenerated tables + correspondence + write/read sweeps"),
